@@ -206,8 +206,8 @@ func linksToJson(spanLinks []*tracepb.Span_Link) ([]byte, error) {
 		}
 
 		links[i] = Link{
-			TraceId:    string(link.TraceId),
-			SpanId:     string(link.SpanId),
+			TraceId:    hex.EncodeToString(link.TraceId),
+			SpanId:     hex.EncodeToString(link.SpanId),
 			TraceState: link.TraceState,
 			Attributes: attributes,
 		}
